@@ -139,6 +139,20 @@ impl World {
     }
 }
 
+thread_local! {
+    /// scenarios with "real_clock": true give times on the model's clock; the compiled cleanup reads the real clock, so
+    /// every time is moved by (real now - model now) on the way in and back on the way out: all ages stay exact
+    static SHIFT: std::cell::Cell<i64> = const { std::cell::Cell::new(0) };
+}
+
+fn t_in(t: u64) -> u64 {
+    (t as i64 + SHIFT.with(|s| s.get())).max(0) as u64
+}
+
+fn t_out(t: u64) -> u64 {
+    (t as i64 - SHIFT.with(|s| s.get())).max(0) as u64
+}
+
 fn dump(store: &MemStore) -> Value {
     Value::Array(
         store
@@ -151,7 +165,7 @@ fn dump(store: &MemStore) -> Value {
                 } else {
                     json!(v.len())
                 };
-                json!({"name": n, "value": val, "creation": c})
+                json!({"name": n, "value": val, "creation": t_out(c)})
             })
             .collect(),
     )
@@ -205,9 +219,9 @@ fn run_try(w: &mut World, scn: &Value, labels: &Labels, default_secret: &[u8]) -
         } else if let Some(tweaks) = phase.get("tweak").and_then(|s| s.as_array()) {
             for t in tweaks {
                 if let Some(p) = t.get("put") {
-                    w.store.put_raw(&name_of(&p["name"], labels), bytes_of(&p["value"]), p["creation"].as_u64().unwrap_or(0));
+                    w.store.put_raw(&name_of(&p["name"], labels), bytes_of(&p["value"]), t_in(p["creation"].as_u64().unwrap_or(0)));
                 } else if let Some(p) = t.get("creation") {
-                    w.store.set_creation(&name_of(&p["name"], labels), p["t"].as_u64().unwrap_or(0));
+                    w.store.set_creation(&name_of(&p["name"], labels), t_in(p["t"].as_u64().unwrap_or(0)));
                 } else if let Some(p) = t.get("copy") {
                     let from = name_of(&p["from"], labels);
                     let to = name_of(&p["to"], labels);
@@ -223,7 +237,7 @@ fn run_try(w: &mut World, scn: &Value, labels: &Labels, default_secret: &[u8]) -
                 } else if let Some(p) = t.get("remove") {
                     w.store.remove_raw(&name_of(&p["name"], labels));
                 } else if let Some(p) = t.get("now") {
-                    w.store.set_now(p.as_u64().unwrap_or(0));
+                    w.store.set_now(t_in(p.as_u64().unwrap_or(0)));
                 }
             }
             phases_out.push(json!({"tweaked": tweaks.len()}));
@@ -335,6 +349,14 @@ pub fn run(scn: &Value) -> Value {
         servers: Vec::new(),
         secrets: Vec::new(),
     };
+    let model_now = scn["now"].as_u64().unwrap_or(2_000_000_000);
+    let shift = if scn.get("real_clock").and_then(|b| b.as_bool()).unwrap_or(false) {
+        let real = std::time::SystemTime::now().duration_since(std::time::UNIX_EPOCH).map(|d| d.as_secs()).unwrap_or(0);
+        real as i64 - model_now as i64
+    } else {
+        0
+    };
+    SHIFT.with(|s| s.set(shift));
     let max_tries = scn["max_tries"].as_u64().unwrap_or(3000);
     let mut tries = 0;
     loop {
@@ -342,7 +364,7 @@ pub fn run(scn: &Value) -> Value {
         let labels: Labels = Rc::new(RefCell::new(HashMap::new()));
         w.store.clear_except(&["salt"]);
         w.store.set_gated(false);
-        w.store.set_now(scn["now"].as_u64().unwrap_or(2_000_000_000));
+        w.store.set_now(t_in(model_now));
         let mut out = run_try(&mut w, scn, &labels, &secret);
         let ok = order_ok(scn, &labels);
         if ok || tries >= max_tries {
